@@ -69,6 +69,8 @@ func checkC01(c *Ctx) {
 	// a number is a value of its own: NewNumber allocates (a shared pre-built number couples every holder, 自增 on one
 	// changes the literal 0 everywhere)
 	borrowRule(c, "C07", "C07.ctor", "C01.ctor")
+	// the value a numeric literal denotes: converted by strconv.ParseFloat only (shared with C04)
+	borrowRule(c, "C04", "C04.numparse", "C01.literal")
 	// the value of a numeric literal (shared with C04): ParseFloat on every path
 	checkNum2Float(c, u, "C01.literal")
 	p := u.Pkgs["pkg/syntax/zh"]
